@@ -35,18 +35,18 @@ const (
 )
 
 type pconn struct {
-	id     int
-	addr   string
-	env    *poolEnv
-	conn   *rpc.Conn
-	feed   chan feedItem
-	closeC chan struct{}
-	mu     sync.Mutex
-	closed bool // socket closed by the client
-	dead   bool // server side gone
+	id      int
+	addr    string
+	env     *poolEnv
+	conn    *rpc.Conn
+	feed    chan feedItem
+	closeC  chan struct{}
+	mu      sync.Mutex
+	closed  bool          // socket closed by the client
+	dead    bool          // server side gone
 	eofSeen chan struct{} // closed once the EOF of a kill has been taken by the reader (or the socket closed)
-	nPing  int
-	held   map[int]uint64 // call k -> seq, waiting for `finish`
+	nPing   int
+	held    map[int]uint64 // call k -> seq, waiting for `finish`
 }
 
 func (c *pconn) ReadMessage(buf []byte) ([]byte, error) {
